@@ -61,7 +61,14 @@ func vParseCIDR(s string) (net.IP, *net.IPNet, error) {
 	if !ok {
 		return nil, nil, errors.New("invalid CIDR address")
 	}
-	return net.IP(ip), &net.IPNet{IP: net.IP(ip), Mask: net.IPMask(mask)}, nil
+	// as net.ParseCIDR: the address AS WRITTEN (host bits included) and the masked network
+	written := net.IP(ip)
+	for i := 0; i < len(s); i++ {
+		if s[i] == '/' {
+			written = net.IP(verifParseIP(s[:i]))
+		}
+	}
+	return written, &net.IPNet{IP: net.IP(ip), Mask: net.IPMask(mask)}, nil
 }
 
 // vNetEqual replaces rnet.Network.Equal (which compares IPNet.String()): same
@@ -241,6 +248,45 @@ func verifC05_MixedFamilies() {
 	verifAssert(got == !denied, "allow-block-decision-table-with-prefix-semantics")
 	if families == 3 {
 		verifCover("lists-mixing-both-families")
+	}
+}
+
+// verifC05_HostBits: CIDR entries written with host bits set ("10.200.3.4/8" means 10.0.0.0/8;
+// the spec's format check accepts them) next to narrower and wider entries, in any order.
+var vPoolHostBits = []vNet{
+	{"10.1.0.0/16", [16]byte{12: 10, 13: 1}, 16, false},
+	{"10.200.3.4/8", [16]byte{12: 10}, 8, false},
+	{"10.1.2.3", [16]byte{12: 10, 13: 1, 14: 2, 15: 3}, 32, false},
+	{"172.31.255.254/12", [16]byte{12: 172, 13: 16}, 12, false},
+	{"172.16.5.0/24", [16]byte{12: 172, 13: 16, 14: 5}, 24, false},
+}
+
+func verifC05_HostBits() {
+	allow := vPick("allow", vPoolHostBits, 2)
+	block := vPick("block", vPoolHostBits, 2)
+	spec := &Spec{BlockByDefault: verifBool("blockByDefault"), AllowIPs: vTexts(allow), BlockIPs: vTexts(block)}
+	f := New(spec)
+	var addr [16]byte
+	for i := 12; i < 16; i++ {
+		addr[i] = verifByte("client")
+	}
+	vClient = net.IP{0, 0, 0, 0, 0, 0, 0, 0, 0, 0, 0xff, 0xff, addr[12], addr[13], addr[14], addr[15]}
+	got := f.Allow("client")
+	inAllow, inBlock := false, false
+	for _, n := range allow {
+		if vIn(addr, n, false) {
+			inAllow = true
+		}
+	}
+	for _, n := range block {
+		if vIn(addr, n, false) {
+			inBlock = true
+		}
+	}
+	denied := (inBlock && !inAllow) || ((inBlock == inAllow) && spec.BlockByDefault)
+	verifAssert(got == !denied, "allow-block-decision-table-with-prefix-semantics")
+	if len(block) == 2 && block[0].ones > block[1].ones && block[1].text != "10.1.2.3" && block[1].base[14] == 0 && block[1].ones < 16 {
+		verifCover("wide-entry-with-host-bits-after-a-narrower-one")
 	}
 }
 
